@@ -2,6 +2,7 @@ package dagaz
 
 import (
 	"context"
+	"math"
 
 	"github.com/aukilabs/go-tooling/pkg/errors"
 	"github.com/aukilabs/hagall-common/messages/dagazpb"
@@ -73,6 +74,9 @@ func (m *Module) HandleDagazQuadSample(ctx context.Context, msg hwebsocket.Msg) 
 	}
 
 	for _, newQuad := range newQuadSample.Samples {
+		if !isValidQuad(newQuad) {
+			continue
+		}
 		quad := NewQuadFromProtobuf(newQuad)
 		m.state.SpatialPartition.InsertQuad(quad)
 	}
@@ -93,8 +97,11 @@ func (m *Module) HandleDagazGetGroundPlane(ctx context.Context, respond hwebsock
 			WithTag("msg_type", msg.Type)
 	}
 
-	ray := NewRayFromProtobuf(req.Ray)
-	quadHit, _ := m.state.SpatialPartition.IntersectQuad(ray)
+	var quadHit *Quad
+	if req.Ray != nil && isValidPoint(req.Ray.From) && isValidPoint(req.Ray.To) {
+		ray := NewRayFromProtobuf(req.Ray)
+		quadHit, _ = m.state.SpatialPartition.IntersectQuad(ray)
+	}
 
 	if quadHit == nil {
 		// create an invalid quad to be able to have a response:
@@ -128,7 +135,10 @@ func (m *Module) HandleDagazGetRegion(ctx context.Context, respond hwebsocket.Re
 			WithTag("msg_type", msg.Type)
 	}
 
-	regionQuads := m.state.SpatialPartition.GetRegion(NewVector3fFromProtobuf(req.Min), NewVector3fFromProtobuf(req.Max))
+	var regionQuads []*Quad
+	if isValidPoint(req.Min) && isValidPoint(req.Max) {
+		regionQuads = m.state.SpatialPartition.GetRegion(NewVector3fFromProtobuf(req.Min), NewVector3fFromProtobuf(req.Max))
+	}
 	regionQuadsProtobuf := make([]*dagazpb.Quad, len(regionQuads))
 	for i := 0; i < len(regionQuads); i++ {
 		regionQuadsProtobuf[i] = regionQuads[i].ToProtobuf()
@@ -172,4 +182,26 @@ func (m *Module) HandleDagazGetDebugInfo(ctx context.Context, respond hwebsocket
 		Occupancy:      debugInfo.Occupancy,
 	})
 	return nil
+}
+
+// maxCoordinate is the largest coordinate magnitude (in meters) accepted from
+// clients. The grid allocates cells for the whole bounding box of the samples
+// it holds, so an unbounded coordinate is an unbounded allocation.
+const maxCoordinate = 1024
+
+func isValidCoordinate(v float32) bool {
+	f := float64(v)
+	return !math.IsNaN(f) && !math.IsInf(f, 0) && math.Abs(f) <= maxCoordinate
+}
+
+// isValidPoint reports whether a point sent by a client is present, finite
+// and within the accepted range.
+func isValidPoint(p *dagazpb.Point) bool {
+	return p != nil && isValidCoordinate(p.X) && isValidCoordinate(p.Y) && isValidCoordinate(p.Z)
+}
+
+// isValidQuad reports whether a quad sample sent by a client can be inserted.
+func isValidQuad(q *dagazpb.Quad) bool {
+	return q != nil && isValidPoint(q.Center) && isValidPoint(q.Extents) &&
+		q.Extents.X >= 0 && q.Extents.Z >= 0
 }
